@@ -96,7 +96,11 @@ type k4interp struct {
 	opaqueCall func(args []k4val) (string, bool)
 	// stores performed on non-local memory, in order (for rules that inspect effects)
 	effects []string
-	stack   []*ssa.Function // functions being interpreted (a new helper that recurses is not unfolded)
+	// onOpaque (optional) is told about every call that is not interpreted, with
+	// its evaluated arguments, before the result is looked up: a specification can
+	// model the callee's effect on memory (e.g. what a search callback did)
+	onOpaque func(name string, args []k4val)
+	stack    []*ssa.Function // functions being interpreted (a new helper that recurses is not unfolded)
 	// answer (optional) supplies values for opaque queries the model does not list
 	answer func(key string, isBool bool) (k4val, bool)
 }
@@ -1000,6 +1004,17 @@ func (it *k4interp) eval1(fr *k4frame, v ssa.Value) (k4val, error) {
 				return res[0], nil
 			}
 			return k4val{kind: 5, tup: res}, nil
+		}
+		if it.onOpaque != nil && cal != nil {
+			var args []k4val
+			for _, a := range x.Call.Args {
+				av, err := it.eval(fr, a)
+				if err != nil {
+					return k4val{}, err
+				}
+				args = append(args, av)
+			}
+			it.onOpaque(extName(cal), args)
 		}
 		return it.opaque(fr, x)
 	}
